@@ -1479,8 +1479,10 @@ def scenario_from_module(mod, rep):
             if cfg is not None and isinstance(cfg.__dict__.get(oname), bool):
                 cobj.extra[oname] = str(cfg.__dict__[oname])
         for f in dc.fields(k):
-            if f.name not in inherited and f.default is not dc.MISSING and (f.default is None or type(f.default) in (int, str)):
+            if f.name not in inherited and f.default is not dc.MISSING:
                 cobj.defaults[f.name] = L.canon(f.default)
+            elif f.name not in inherited and f.default_factory is not dc.MISSING:
+                cobj.defaults[f.name] = L.canon(f.default_factory())
         sc.classes.append(cobj)
     sc.roots = [ty_of(t) for t in mod.ROOTS]
     return sc
